@@ -166,6 +166,9 @@ func sampleTyped(rng *rand.Rand, pkg CorpusPkg, mode Mode, i int) CScenario {
 					c.Fault = &Fault{Kind: "ctype", Arg: []string{"", "text/weird", "application", ";;;", "application/json; charset="}[rng.Intn(5)]}
 				case 7, 8:
 					c.Fault = &Fault{Kind: "flip", At: rng.Intn(600)}
+					if rng.Intn(3) == 0 {
+						c.Fault = &Fault{Kind: "lie-length", Arg: []string{"4611686018427387904", "9223372036854775807", "1152921504606846976"}[rng.Intn(3)]}
+					}
 				case 9:
 					c.Fault = &Fault{Kind: "append", Arg: []string{"}", " x", "]", "\x00", ",", "{}", "1", "\"s\"", "null", "  \n"}[rng.Intn(10)]}
 				}
